@@ -273,8 +273,10 @@ class StoreBackendMixin(object):
         """Check if some results are stored under a path of the store."""
         func_path = os.path.join(self.location, *call_id)
         try:
+            # Only the directories that hold a result count: the functions
+            # nested in this one have their own directories under this path.
             return any(
-                os.path.isdir(os.path.join(func_path, name))
+                os.path.exists(os.path.join(func_path, name, "output.pkl"))
                 for name in os.listdir(func_path)
             )
         except FileNotFoundError:
